@@ -33,6 +33,8 @@ func init() {
 			Run: func(P *Program, R *Report) { validateKeyRule(P, R, "C16.e") }},
 		Rule{ID: "C16.f", Explain: "keyproof.CanProve tests safe primality of both factors and the residue conditions on P, Q, PPrime, QPrime modulo 8.",
 			Run: func(P *Program, R *Report) { canProveRule(P, R, "C16.f") }},
+		Rule{ID: "C16.g", Explain: "no failure is dropped during key generation and validation (gabikeys/keys.go, safeprime/): a failed prime search, generator or ECDSA key step ends the call (same rule as C08.g: the error a call returns has a use - a nil test or a return - before it is overwritten, shadowed or left behind).",
+			Run: func(P *Program, R *Report) { errorResultsUsedRule(P, R, "C16.g", inFiles(P, "gabikeys/keys.go", "safeprime/"), nil, 10) }},
 	)
 }
 
